@@ -69,6 +69,9 @@ def coerce(v, ty: Ty, st=None):
         if v.ty == NONE:
             return V(ty, ty.sort().none)
         return V(ty, ty.sort().some(coerce(v, ty.inner).z))
+    if ty == T.Text and is_str(v.ty) and v.ty.view == "array":
+        USED["tx_of"] = True
+        return V(ty, tx_of()(v.z))
     if ty == INT and v.ty == BOOL:
         return V(INT, z3.If(v.z, 1, 0))
     if ty == INT and v.ty == CHAR:
@@ -79,6 +82,22 @@ def coerce(v, ty: Ty, st=None):
     if isinstance(ty, TRef) and isinstance(v.ty, TRef):
         return V(ty, v.z)  # sub/superclass views share the reference
     raise Unsupported(f"cannot coerce {v.ty} to {ty}")
+
+
+USED: dict = {}
+
+
+def tx_of():
+    """array-view string regarded as an opaque text (only its length is carried over)"""
+    return T._dt("Text.of", lambda: z3.Function("tx_of", T.StrA.sort(), T.Text.sort()))
+
+
+def global_axioms():
+    out = []
+    if USED.get("tx_of"):
+        x = z3.Const("txof_x", T.StrA.sort())
+        out.append(z3.ForAll([x], T.text_len()(tx_of()(x)) == T.StrA.sort().len(x), patterns=[tx_of()(x)]))
+    return out
 
 
 def infer_ty(v, hint=None) -> Ty:
@@ -306,7 +325,8 @@ def forall(vars_, body, rng=None):
     insts = []
     for combo in itertools.product(range(-1, b + 1), repeat=len(vars_)):
         insts.append(z3.substitute(body, *[(v, z3.IntVal(c)) for v, c in zip(vars_, combo)]))
-    return z3.And(*insts)
+    # double negation keeps the expansion one unit (obligation splitting follows the contract text only)
+    return z3.Not(z3.Not(z3.And(*insts)))
 
 
 def exists(vars_, body):
